@@ -1,0 +1,89 @@
+package e2e
+
+import (
+	"sync"
+	"testing"
+	"time"
+
+	streamsql "github.com/rulego/streamsql"
+	"github.com/stretchr/testify/assert"
+	"github.com/stretchr/testify/require"
+)
+
+// runHavingExprArg emits three rows of one group into a counting window of three
+// and returns the rows delivered to the sink.
+func runHavingExprArg(t *testing.T, sql string) []map[string]any {
+	t.Helper()
+	ssql := streamsql.New()
+	require.NoError(t, ssql.Execute(sql), sql)
+	defer ssql.Stop()
+	var mu sync.Mutex
+	var out []map[string]any
+	ssql.AddSink(func(rows []map[string]any) {
+		mu.Lock()
+		defer mu.Unlock()
+		out = append(out, rows...)
+	})
+	for _, r := range []map[string]any{
+		{"k": "b", "v": 1, "w": 5},
+		{"k": "b", "v": 2, "w": 5},
+		{"k": "b", "v": 3, "w": 5},
+	} {
+		ssql.Emit(r)
+	}
+	deadline := time.Now().Add(time.Second)
+	for time.Now().Before(deadline) {
+		mu.Lock()
+		n := len(out)
+		mu.Unlock()
+		if n > 0 {
+			break
+		}
+		time.Sleep(10 * time.Millisecond)
+	}
+	time.Sleep(100 * time.Millisecond)
+	mu.Lock()
+	defer mu.Unlock()
+	return append([]map[string]any(nil), out...)
+}
+
+// An aggregate that only HAVING references is computed over its argument
+// evaluated per row, like the same call in the SELECT list.
+func TestHaving_AggregateOverExpressionArgument(t *testing.T) {
+	const head = "SELECT k, count(*) AS c FROM stream GROUP BY k, CountingWindow(3) HAVING "
+	accepted := []string{
+		"sum(v*2) = 12",
+		"avg(v*2) > 3",
+		"sum(v + w) = 21",
+		"sum((v + 1) * 2) = 18",
+		"sum(abs(v - 5)) = 9",
+		"sum(CASE WHEN v > 1 THEN 1 ELSE 0 END) = 2",
+		"sum(v*2) = 12 AND max(v + w) = 8 AND min(v) = 1",
+	}
+	for _, h := range accepted {
+		rows := runHavingExprArg(t, head+h)
+		if assert.Len(t, rows, 1, h) {
+			assert.EqualValues(t, 3, rows[0]["c"], h)
+			for col := range rows[0] {
+				assert.NotContains(t, col, "__having_", h)
+			}
+		}
+	}
+	rejected := []string{
+		"sum(v*2) = 6",
+		"avg(v*2) < 3",
+		"sum(v + w) = 6",
+		"sum(abs(v - 5)) = 6",
+	}
+	for _, h := range rejected {
+		assert.Empty(t, runHavingExprArg(t, head+h), h)
+	}
+}
+
+// The aggregate may be selected under an alias as well.
+func TestHaving_AggregateOverExpressionArgument_AlsoSelected(t *testing.T) {
+	rows := runHavingExprArg(t, "SELECT k, sum(v*2) AS s FROM stream GROUP BY k, CountingWindow(3) HAVING sum(v*2) = 12")
+	if assert.Len(t, rows, 1) {
+		assert.EqualValues(t, 12, rows[0]["s"])
+	}
+}
